@@ -79,11 +79,11 @@ Proof.
     (destruct fuel as [|f]; [simpl in Hf; lia|]).
   - cbn [list_items_paginated truthy dflt]. rewrite Hu. cbn [run].
     erewrite get_json_ok; eauto; [|left; reflexivity].
-    rewrite run_bind. cbn [page_obj o_next o_value]. destruct f; cbn [list_items_paginated truthy run];
+    cbn [page_obj o_ok]. rewrite run_bind. cbn [page_obj o_next o_value]. destruct f; cbn [list_items_paginated truthy run];
       rewrite app_nil_r; reflexivity.
   - cbn [list_items_paginated truthy dflt]. rewrite Hu. cbn [run].
     erewrite get_json_ok; eauto; [|left; reflexivity].
-    rewrite run_bind. cbn [page_obj o_next o_value].
+    cbn [page_obj o_ok]. rewrite run_bind. cbn [page_obj o_next o_value].
     simpl in Hc. apply andb_true_iff in Hc as [Hl Hc]. cbn [snd] in Hl.
     erewrite (IH link (skipn n items) w (adv s [(false, url)]) t n0 f); eauto.
     + cbn [run]. rewrite <- files_of_app, firstn_skipn, adv_adv. reflexivity.
@@ -102,11 +102,11 @@ Proof.
     (destruct fuel as [|f]; [simpl in Hf; lia|]).
   - cbn [get_folders truthy dflt]. rewrite Hu. cbn [run].
     erewrite get_json_ok; eauto; [|left; reflexivity].
-    rewrite run_bind. cbn [page_obj o_next o_value]. destruct f; cbn [get_folders truthy run];
+    cbn [page_obj o_ok]. rewrite run_bind. cbn [page_obj o_next o_value]. destruct f; cbn [get_folders truthy run];
       rewrite app_nil_r; reflexivity.
   - cbn [get_folders truthy dflt]. rewrite Hu. cbn [run].
     erewrite get_json_ok; eauto; [|left; reflexivity].
-    rewrite run_bind. cbn [page_obj o_next o_value].
+    cbn [page_obj o_ok]. rewrite run_bind. cbn [page_obj o_next o_value].
     simpl in Hc. apply andb_true_iff in Hc as [Hl Hc]. cbn [snd] in Hl.
     erewrite (IH link (skipn n items) w (adv s [(false, url)]) t n0 f); eauto.
     + cbn [run]. rewrite <- folders_of_app, firstn_skipn, adv_adv. reflexivity.
@@ -355,7 +355,7 @@ Lemma send_facts w b r s :
   let s' := snd (send w b r s) in
   urls s' = urls s ++ [(b, r_url r)] /\ balanced s s' /\ tok s' = tok s /\ sid s' = sid s.
 Proof.
-  unfold send, balanced. destruct (w (nreq s) r) as [c| |stt bd]; [| |destruct (is_2xx stt)]; simpl; repeat split; lia.
+  unfold send, balanced. destruct (w (nreq s) r) as [c| | | |stt bd]; [| | | |destruct (is_2xx stt)]; simpl; repeat split; lia.
 Qed.
 
 Lemma fetch_token_facts E w s :
@@ -412,25 +412,32 @@ Qed.
 Fixpoint plain {A} (p : prog A) : Prop :=
   match p with
   | Ret _ | Fail _ => True
-  | ApiGet _ k => forall o, plain (k o)
+  | ApiGet u k => (forall o, plain (k o))
+                  /\ (forall o, o_ok o = false -> o_id o = None -> k o = Fail (RequestError None u))
   | ApiGet404 _ _ => False
   | GetSid k => forall c, plain (k c)
   | SetSid _ _ => False
   end.
 
 Lemma plain_bind {A B} (p : prog A) (f : A -> prog B) : plain p -> (forall a, plain (f a)) -> plain (bind p f).
-Proof. induction p; simpl; intros Hp Hf; auto; tauto. Qed.
+Proof.
+  induction p as [a|e|u k IH|u k IH|k IH|v p IH]; simpl; intros Hp Hf; auto; try tauto.
+  destruct Hp as [Hp Hs]. split; [intro o; apply IH; auto|].
+  intros o H1 H2. rewrite (Hs o H1 H2). reflexivity.
+Qed.
 
 Lemma plain_paginate E path : forall fuel cur, plain (list_items_paginated E fuel cur path).
 Proof.
   induction fuel as [|f IH]; intro cur; cbn [list_items_paginated]; destruct (truthy cur); simpl; auto.
-  intro o. apply plain_bind; [apply IH | intro; exact I].
+  split; [|intros o H _; rewrite H; reflexivity].
+  intro o. destruct (o_ok o); [|exact I]. apply plain_bind; [apply IH | intro; exact I].
 Qed.
 
 Lemma plain_folders : forall fuel cur, plain (get_folders fuel cur).
 Proof.
   induction fuel as [|f IH]; intro cur; cbn [get_folders]; destruct (truthy cur); simpl; auto.
-  intro o. apply plain_bind; [apply IH | intro; exact I].
+  split; [|intros o H _; rewrite H; reflexivity].
+  intro o. destruct (o_ok o); [|exact I]. apply plain_bind; [apply IH | intro; exact I].
 Qed.
 
 Lemma plain_walk_folders rec path : (forall i p, plain (rec i p)) -> forall l, plain (walk_folders rec path l).
@@ -462,15 +469,16 @@ Lemma send_fault w k0 f u t s :
   nreq s = k0 -> fault_ok f = true ->
   exists s', send (faulty w k0 (resp_of_fault f)) false {| r_url := u; r_auth := Some t |} s
              = (match f with
-                | FHttp _ | FUrl | FStatus _ => Raise (err_of false u f)
+                | FHttp _ | FUrl | FStatus _ | FOs | FRead => Raise (err_of false u f)
                 | FBadJson => Ok BBadJson | FNonObj => Ok BNonObj | FBadUtf8 => Ok BBadUtf8
+                | FBadPage o => Ok (BObj o)
                 end, s')
              /\ urls s' = urls s ++ [(false, u)] /\ balanced s s' /\ tok s' = tok s /\ sid s' = sid s.
 Proof.
   intros Hk Hf. unfold send, faulty. rewrite Hk, Nat.eqb_refl. unfold balanced.
-  destruct f as [c| |stt| | |]; cbn [resp_of_fault r_url err_of];
+  destruct f as [c| |stt| | | | | |o]; cbn [resp_of_fault r_url err_of];
     try (change (is_2xx (Some 200%Z)) with true; cbv iota);
-    try (simpl in Hf; apply negb_true_iff in Hf; rewrite Hf);
+    try (cbn [fault_ok] in Hf; apply negb_true_iff in Hf; rewrite Hf);
     eexists; (split; [reflexivity|]); simpl; repeat split; lia.
 Qed.
 
@@ -487,7 +495,7 @@ Proof.
   intros Hp Hf. induction p as [a0|e|u k IH|u k IH|k IH|v p IH]; intros s t a s1 Ht Hr Hk; cbn [run] in *.
   - inversion Hr; subst. lia.
   - discriminate.
-  - cbn [plain] in Hp.
+  - cbn [plain] in Hp. destruct Hp as [Hp Hstrict].
     rewrite (get_json_cached E wH u s t Ht) in Hr. rewrite (get_json_cached E _ u s t Ht).
     destruct (Nat.eq_dec (nreq s) k0) as [Heq|Hne].
     + (* the fault hits this request *)
@@ -505,7 +513,10 @@ Proof.
         rewrite nth_error_app2 by (unfold nreq in Heq; lia).
         unfold nreq in Heq. rewrite <- Heq, Nat.sub_diag. reflexivity. }
       split.
-      { destruct f; reflexivity. }
+      { destruct f as [c| |stt| | | | | |o]; try reflexivity.
+        cbn [fault_ok] in Hf. apply andb_true_iff in Hf as [Hf _]. apply andb_true_iff in Hf as [H1 H2].
+        apply negb_true_iff in H1. destruct (o_id o) eqn:Hid; [discriminate|].
+        rewrite (Hstrict o H1 Hid). reflexivity. }
       unfold nreq. rewrite Hu, app_length. simpl. unfold nreq in Heq. repeat split; auto; try lia; congruence.
     + (* the fault is later: this request behaves as in the healthy run *)
       assert (Hsame : send (faulty wH k0 (resp_of_fault f)) false {| r_url := u; r_auth := Some t |} s
